@@ -520,6 +520,51 @@ func init() {
 	reg("internal/bytealg.IndexByteString", indexByte)
 	reg("bytes.IndexByte", indexByte)
 
+	// ---- strings package on symbolic text (concrete arguments run the real code)
+	reg("strings.Contains", func(in *Interp, fr *frame, a []Value) Value {
+		if ss, ok := a[0].(*SymStr); ok {
+			sub, ok2 := a[1].(string)
+			if !ok2 {
+				in.abort("unsupported: strings.Contains with symbolic needle")
+			}
+			return in.symContains(ss, sub)
+		}
+		if s0, ok := a[0].(string); ok {
+			if s1, ok := a[1].(string); ok {
+				return Bool(strings.Contains(s0, s1))
+			}
+		}
+		in.abort("unsupported: strings.Contains operands")
+		return nil
+	})
+	reg("strings.SplitN", func(in *Interp, fr *frame, a []Value) Value {
+		n, _ := concInt(a[2])
+		if ss, ok := a[0].(*SymStr); ok {
+			sep, ok2 := a[1].(string)
+			if !ok2 {
+				in.abort("unsupported: strings.SplitN with symbolic separator")
+			}
+			return in.symSplitN(ss, sep, int(n))
+		}
+		s0, ok0 := a[0].(string)
+		s1, ok1 := a[1].(string)
+		if !ok0 || !ok1 {
+			in.abort("unsupported: strings.SplitN operands")
+		}
+		parts := strings.SplitN(s0, s1, int(n))
+		out := make(Slice, len(parts))
+		for i, p := range parts {
+			out[i] = p
+		}
+		return out
+	})
+	reg("strings.TrimSpace", func(in *Interp, fr *frame, a []Value) Value {
+		if ss, ok := a[0].(*SymStr); ok {
+			return in.symTrimSpace(ss)
+		}
+		return strings.TrimSpace(a[0].(string))
+	})
+
 	// ---- strings built from data
 	reg("(net.IP).String", func(in *Interp, fr *frame, a []Value) Value {
 		ip, _ := a[0].(Slice)
